@@ -38,7 +38,12 @@ def _drive(ctx, fs, kind, cap, ops, keytype):
     c = (LRUCache if lru else LFUCache)(cap)
     d = {}
     empty = () if lru else frozenset()
-    cands = {(True, empty), (False, empty)}
+    # what the statement leaves open is fixed per history (an implementation is consistent with itself):
+    # p = (membership counts as a use, values()/items() count as a lookup of every key, == counts as a lookup of every key)
+    if lru:
+        cands = {((a, False, False), empty) for a in (True, False)}
+    else:
+        cands = {((a, b, e), empty) for a in (True, False) for b in (True, False) for e in (True, False)}
     st_ = {"reordered": False, "restored": set(), "evictions": 0}
 
     def run(op, fn):
@@ -182,7 +187,7 @@ def _drive(ctx, fs, kind, cap, ops, keytype):
                 r = run(op, lambda: k in c)
                 ctx.need(r == (k in d), "%s/in/wrong" % name, lambda: "%r in cache = %r, content %r" % (k, r, d))
                 if k in d:
-                    cands = {(p, touch(m, k) if p else m) for p, m in cands}
+                    cands = {(p, touch(m, k) if p[0] else m) for p, m in cands}
             elif op in ("values", "items", "eq", "keys", "len"):
                 n = len(d)
                 if op == "keys":
@@ -230,12 +235,12 @@ def _drive(ctx, fs, kind, cap, ops, keytype):
                                         lambda: "view operation changed the key set: %r vs %r" % (now, d)):
                             raise _Stop()
                         cands = {(p, now) for p, _ in cands}
-                    else:  # counts unchanged, or every present key used once (once per == call)
-                        reps = 3 if op == "eq" and d else 1
-                        new = set(cands)
-                        for _ in range(reps):
-                            new |= {(p, frozenset((a, b + 1) for a, b in m)) for p, m in new}
-                        cands = new
+                    else:
+                        # LFU: a view either counts as one lookup of every present key or it does not (fixed per history);
+                        # `==` was evaluated against 3 objects when the cache is non-empty (1 otherwise)
+                        reps = (3 if d else 1) if op == "eq" else 1
+                        flag = 2 if op == "eq" else 1
+                        cands = {(p, frozenset((a, b + reps) for a, b in m) if p[flag] else m) for p, m in cands}
             elif op == "pop":
                 if k in d:
                     r = run(op, lambda: c.pop(k))
@@ -325,8 +330,9 @@ def _drive(ctx, fs, kind, cap, ops, keytype):
                                 cnt[kk] = 1
                                 nxt.add((p, frozenset(cnt.items())))
                         states = nxt
-                        if len(states) > 4096:
-                            states = set(sorted(states, key=repr)[:4096])
+                        if len(states) > 20000:
+                            from ..common import Inconclusive
+                            raise Inconclusive("more than 20000 admissible outcomes of an overflowing update")
                     run("update", lambda: c.update(arg))
                     ks_ = keys_now("update")
                     keep = {(p, m) for p, m in states if {a for a, _ in m} == set(ks_)}
@@ -386,9 +392,10 @@ def _drive(ctx, fs, kind, cap, ops, keytype):
                          % (ks, o, "most-to-least recently used" if lru else "non-decreasing in use count", sorted(cands, key=repr)[:4]))
                 raise _Stop()
             cands = new
-            if len(cands) > 256:
-                # harness guard (never expected): keep the search going with the models closest to 'no perturbation'
-                cands = set(sorted(cands, key=repr)[:256])
+            if len(cands) > 20000:
+                # never truncate the set of admissible models (that would turn a harness limit into a false alarm)
+                from ..common import Inconclusive
+                raise Inconclusive("more than 20000 admissible models")
             # optional internal agreement (only if the attributes exist)
             if hasattr(c, "cache") and hasattr(c, "list") and isinstance(getattr(c, "cache"), dict):
                 try:
